@@ -57,6 +57,9 @@ def discharge(vc, timeout_ms=None, fallbacks=True, seed=None):
         if r == z3.unknown:
             res['reason'] = s.reason_unknown()
         return res
+    # portfolio: z3 5.1 (python API) with a short budget, then /usr/bin/z3 4.8.12 (much better on string-heavy queries), then z3 5.1 with the rest
+    first_ms = min(timeout_ms, 3000)
+    s.set('timeout', first_ms)
     s.add(*vc.hyps)
     s.add(z3.Not(vc.goal))
     r = s.check()
@@ -67,28 +70,41 @@ def discharge(vc, timeout_ms=None, fallbacks=True, seed=None):
     if r == z3.sat:
         res['verdict'] = 'sat'
         try:
-            m = s.model()
-            res['model'] = model_to_dict(m)
+            res['model'] = model_to_dict(s.model())
         except Exception as e:       # noqa
             res['model'] = {'error': str(e)}
         return res
     res['reason'] = s.reason_unknown()
-    if fallbacks:
+    if fallbacks and os.path.exists('/usr/bin/z3'):
         try:
             text = smt2_of(vc.hyps, vc.goal)
+            for prefix, label in (('(set-logic ALL)\n', 'z3-4.8.12(cli, logic ALL)'), ('', 'z3-4.8.12(cli)')):
+                v, dt = run_cli(['/usr/bin/z3', f'-T:{max(1, timeout_ms // 2000)}'], prefix + text, timeout_ms / 2000 + 2)
+                res['time_s'] += dt
+                if v in ('unsat', 'sat'):
+                    res.update(verdict=v, backend=label)
+                    return res
         except Exception as e:     # noqa
+            res['reason'] += f' / cli: {e!r}'
+    if timeout_ms > first_ms:
+        s2 = z3.Solver()
+        s2.set('timeout', timeout_ms - first_ms)
+        s2.add(*vc.hyps)
+        s2.add(z3.Not(vc.goal))
+        t1 = time.time()
+        r = s2.check()
+        res['time_s'] += time.time() - t1
+        if r == z3.unsat:
+            res['verdict'] = 'unsat'
             return res
-        for label, cmd in (('z3-4.8.12(cli)', ['/usr/bin/z3', f'-T:{max(1, timeout_ms // 1000)}']),):
-            if not os.path.exists(cmd[0]):
-                continue
-            v, dt = run_cli(cmd, text, timeout_ms / 1000 + 2)
-            res['time_s'] += dt
-            if v == 'unsat':
-                res.update(verdict='unsat', backend=label)
-                return res
-            if v == 'sat':
-                res.update(verdict='sat', backend=label)
-                return res
+        if r == z3.sat:
+            res['verdict'] = 'sat'
+            try:
+                res['model'] = model_to_dict(s2.model())
+            except Exception as e:       # noqa
+                res['model'] = {'error': str(e)}
+            return res
+        res['reason'] = s2.reason_unknown()
     return res
 
 
@@ -105,3 +121,27 @@ def model_to_dict(m, limit=60):
         if len(out) >= limit:
             break
     return out
+
+
+def discharge_fresh(vc, timeout_ms=60000):
+    """discharge a (small, closed) lemma in FRESH solver processes — z3 5.1 CLI and z3 4.8.12 CLI on the SMT-LIB text — so that the verdict does not depend
+    on the state the in-process z3 context has accumulated; falls back to the in-process portfolio"""
+    res = dict(name=vc.name, kind=vc.kind, verdict='unknown', backend='-', time_s=0.0, model=None, reason='')
+    try:
+        text = smt2_of(vc.hyps, vc.goal)
+    except Exception as e:      # noqa
+        return discharge(vc, timeout_ms)
+    per = max(2, timeout_ms // 3000)
+    for cmd, label in ((['z3-new', f'-T:{per}'], 'z3-5.1(cli, fresh process)'), (['/usr/bin/z3', f'-T:{per}'], 'z3-4.8.12(cli, fresh process)'),
+                       (['/usr/bin/z3', f'-T:{per}'], 'z3-4.8.12(cli, logic ALL, fresh process)')):
+        import shutil as _sh
+        if _sh.which(cmd[0]) is None:
+            continue
+        v, dt = run_cli(cmd, ('(set-logic ALL)\n' if 'ALL' in label else '') + text, per + 3)
+        res['time_s'] += dt
+        if v in ('unsat', 'sat'):
+            res.update(verdict=v, backend=label)
+            return res
+    r = discharge(vc, timeout_ms)
+    r['time_s'] += res['time_s']
+    return r
